@@ -10,7 +10,7 @@ sys.path.insert(0, os.path.dirname(os.path.abspath(__file__)))
 from extract import Unit, Emitter, ExtractError, scan_assumptions, vacuity_variant  # noqa: E402
 
 VERIF = os.path.dirname(os.path.dirname(os.path.abspath(__file__)))
-BUILD = os.path.join(VERIF, 'build')
+BUILD = os.path.join(VERIF, 'build', os.environ.get('VERIF_BUILD_SUBDIR', ''))
 ENC_PAT = re.compile(r'\b(appended_enc|all_enc|encodable|is_fixed_jump|enc_ok)\b')
 
 
